@@ -124,6 +124,11 @@ class LtlAstParserVisitor(LtlParserVisitor):
         const_name = ctx.Identifier().getText()
         const_type = ctx.domainType().getText()
         const_value = ctx.literal().getText()
+        try:
+            float(const_value)
+        except ValueError:
+            # hexadecimal, binary or underscored integer literal
+            const_value = str(int(const_value.replace('_', ''), 0))
 
         self.declare_const(const_name, const_type, const_value)
 
